@@ -5,7 +5,7 @@
    the relativization choices). *)
 From DV Require Import Base.Prelude Model.NameM Model.TokM Model.RdTextM.
 From DV Require Import Proofs.NameValid Proofs.NameText Proofs.TokEsc Proofs.TokTxt Proofs.TokWords
-     Proofs.TokDec Proofs.TokHex Proofs.TokShape Proofs.TokGeneric Proofs.TokUtf8 Proofs.RdTextName Proofs.RdTextAddr Proofs.RdTextBitmap Proofs.RdTextTypes Proofs.RdTextB32 Proofs.RdTextSig Proofs.RdTextEui Proofs.RdTextFmtHex Proofs.RdTextTail Proofs.RdTextGpos Proofs.RdTextApl Proofs.RdTextWks Proofs.RdTextSvcb Proofs.RdTextLoc.
+     Proofs.TokDec Proofs.TokHex Proofs.TokShape Proofs.TokGeneric Proofs.TokUtf8 Proofs.RdTextName Proofs.RdTextAddr Proofs.RdTextBitmap Proofs.RdTextTypes Proofs.RdTextB32 Proofs.RdTextSig Proofs.RdTextEui Proofs.RdTextFmtHex Proofs.RdTextTail Proofs.RdTextGpos Proofs.RdTextApl Proofs.RdTextWks Proofs.RdTextSvcb Proofs.RdTextLoc Proofs.RdTextLocAlt.
 From DV Require Model.SchemaM.
 Open Scope Z_scope.
 
@@ -57,7 +57,7 @@ Definition val_ok (f : tfield) (v : tval) : Prop :=
   | FAddr4S, VBytes b => all_bytes b = true /\ length b = 4%nat
   | FWksProto, VInt z => 0 <= z <= 255
   | FWksPorts, VBytes bm => all_bytes bm = true /\ wks_canon bm /\ zlen bm <= 8192
-  | FLocRec, VLoc la lo alt sz hp vp => loc_ok la lo alt sz hp vp
+  | FLocRec, VLoc la lo alt sz hp vp => loc_wf la lo alt sz hp vp
   | FSvcbRec, VSvcb p n ps => svcb_ok p n ps
   | FAplRest, VApl items => Forall item_ok items
   | FKeyRec, VKey f p a at_ k =>
@@ -706,32 +706,30 @@ Proof.
       cbn [ctor_field]. replace (zlen s >? 65535) with false by lia. reflexivity.
   - (* FGw *)
     destruct Hv as (Ha & Ha0 & Hgw). specialize (HR1 eq_refl).
-    (* the gateway token gt, what it is read back as (raw), and what the constructor makes of it *)
+    (* the gateway token gt and what Gateway.from_text (reading + _check) makes of it *)
     assert (Hg : exists gt gw', 
               (match gw with GwNone => Ok [46] | GwText t => Ok t | GwName n => name_to_styled_text sty n end) = Ok gt /\
               units gt /\ gt <> [] /\ 0 <= g <= 3 /\ v' = VGw g a gw' /\
               forall q0 X, word_end X ->
-                exists raw, (if (g =? 0) || (g =? 1) || (g =? 2)
-                             then do ts <- get_string (stq q0 ([32] ++ gt ++ X)) 0; Ok (VGw g a (GwText (fst ts)), snd ts)
-                             else if g =? 3 then do ns <- get_name c (stq q0 ([32] ++ gt ++ X)); Ok (VGw g a (GwName (fst ns)), snd ns)
-                             else Lib eSyntax) = Ok (raw, stq false X)
-                            /\ ctor_field (FGw ipsec) raw = Ok (VGw g a gw')).
+                (if (g =? 0) || (g =? 1) || (g =? 2)
+                 then do ts <- get_string (stq q0 ([32] ++ gt ++ X)) 0; do v <- gw_check g a (GwText (fst ts)); Ok (v, snd ts)
+                 else if g =? 3 then do ns <- get_name c (stq q0 ([32] ++ gt ++ X)); do v <- gw_check g a (GwName (fst ns)); Ok (v, snd ns)
+                 else Lib eSyntax) = Ok (VGw g a gw', stq false X)).
     { destruct gw as [|t|n].
       - subst g. inversion He; subst v'. exists [46], GwNone. split; [reflexivity|]. split; [apply units_safe; reflexivity|].
         split; [discriminate|]. split; [lia|]. split; [reflexivity|]. intros q0 X HX0.
-        exists (VGw 0 a (GwText [46])). cbn [Z.eqb orb]. rewrite get_string_word by (auto; discriminate). cbn [bind fst snd].
-        split; reflexivity.
+        cbn [Z.eqb orb]. rewrite get_string_word by (auto; discriminate). cbn [bind fst snd]. reflexivity.
       - inversion He; subst v'. destruct Hgw as [(-> & b & Hb & Hl & Ent)|(-> & b & Hb & Hl & Ent)].
         + destruct (ipv4_roundtrip b Hb Hl) as (t' & E1 & E2). rewrite Ent in E1. inversion E1; subst t'.
           destruct (ipv4_ntoa_word b t Hb Ent) as [Hs Hne].
           exists t, (GwText t). split; [reflexivity|]. split; [apply units_safe, Hs|]. split; [exact Hne|]. split; [lia|].
-          split; [reflexivity|]. intros q0 X HX0. exists (VGw 1 a (GwText t)). cbn [Z.eqb orb].
-          rewrite get_string_word by auto. cbn [bind fst snd]. split; [reflexivity|]. cbn [ctor_field Z.eqb]. rewrite E2. reflexivity.
+          split; [reflexivity|]. intros q0 X HX0. cbn [Z.eqb orb].
+          rewrite get_string_word by auto. cbn [bind fst snd]. unfold gw_check. cbn [Z.eqb]. rewrite E2. reflexivity.
         + destruct (ipv6_roundtrip b Hb Hl) as (t' & E1 & E2). rewrite Ent in E1. inversion E1; subst t'.
           destruct (ipv6_ntoa_word b t Hb Ent) as [Hs Hne].
           exists t, (GwText t). split; [reflexivity|]. split; [apply units_safe, Hs|]. split; [exact Hne|]. split; [lia|].
-          split; [reflexivity|]. intros q0 X HX0. exists (VGw 2 a (GwText t)). cbn [Z.eqb orb].
-          rewrite get_string_word by auto. cbn [bind fst snd]. split; [reflexivity|]. cbn [ctor_field Z.eqb]. rewrite E2. reflexivity.
+          split; [reflexivity|]. intros q0 X HX0. cbn [Z.eqb orb].
+          rewrite get_string_word by auto. cbn [bind fst snd]. unfold gw_check. cbn [Z.eqb]. rewrite E2. reflexivity.
       - destruct Hgw as (-> & V & HB). cbn [expect] in He.
         destruct (name_path sty c n) as [n'| |] eqn:E2; cbn [bind] in He; try discriminate. inversion He; subst v'.
         destruct (name_to_styled_text sty n) as [t| |] eqn:E1.
@@ -743,9 +741,9 @@ Proof.
           destruct (name_text_word n1 V1 B1) as (Hu & Hne & _). split; assumption. }
         destruct Hw as [Hu Hne].
         exists t, (GwName n'). split; [reflexivity|]. split; [exact Hu|]. split; [exact Hne|]. split; [lia|].
-        split; [reflexivity|]. intros q0 X HX0. exists (VGw 3 a (GwName n')). cbn [Z.eqb orb].
+        split; [reflexivity|]. intros q0 X HX0. cbn [Z.eqb orb].
         rewrite get_name_word by auto. unfold utok. rewrite (as_name_printed sty c n t (has_bs t) V HB HO E1). rewrite E2.
-        cbn [bind fst snd]. split; reflexivity. }
+        cbn [bind fst snd]. reflexivity. }
     destruct Hg as (gt & gw' & Egt & Hu & Hne & Hg03 & -> & Hread).
     rewrite Egt in Hp. cbn [bind] in Hp. inversion Hp; subst ftext. clear Hp.
     pose proof (dec_safe g ltac:(lia)) as Hsg.
@@ -766,11 +764,10 @@ Proof.
       - replace ([32] ++ (dec a ++ [32]) ++ gt ++ R) with ([32] ++ dec a ++ ([32] ++ gt ++ R)) by (rewrite <- !app_assoc; reflexivity).
         rewrite (get_uint_word false [32] a max8 ([32] ++ gt ++ R) eq_refl ltac:(unfold max8; lia) (word_end_blank32 _)). reflexivity.
       - replace (g >? 127) with false by lia. rewrite (Ha0 eq_refl). reflexivity. }
-    destruct (Hread false R HR1) as (raw & Eraw & Ector).
-    exists raw, (stq false R). split; [|split; [exact Ector|split; [intros _; exists false; reflexivity|discriminate]]].
+    exists (VGw g a gw'), (stq false R). split; [|split; [reflexivity|split; [intros _; exists false; reflexivity|discriminate]]].
     cbn [parse_field]. rewrite (get_uint_from g max8 stX _ ltac:(unfold max8; lia) HX). cbn [bind fst snd].
     match type of Hmid with (do as_ <- ?e; Ok as_) = _ => destruct e as [[a1 s2]| |] eqn:Em; cbn [bind] in Hmid; try discriminate end.
-    inversion Hmid; subst a1 s2. cbn [bind fst snd]. exact Eraw.
+    inversion Hmid; subst a1 s2. cbn [bind fst snd]. exact (Hread false R HR1).
   - (* FB64RestE *)
     inversion Hp; subst ftext. inversion He; subst v'. specialize (HR2 eq_refl). clear Hp.
     destruct b as [|x b'].
@@ -932,7 +929,7 @@ Proof.
   - (* FLocRec *)
     specialize (HR2 eq_refl). inversion He; subst v'. inversion Hp; subst ftext. clear Hp.
     destruct la as [[[[d1 m1] s1] ms1] sg1]. destruct lo as [[[[d2 m2] s2] ms2] sg2].
-    pose proof Hv as ((Hd1 & _) & _).
+    apply loc_wf_ok in Hv. pose proof Hv as ((Hd1 & _) & _).
     pose proof (dec_safe d1 Hd1) as Hsd.
     set (REST := [32] ++ dec m1 ++ ([32] ++ secs_text s1 ms1 ++ ([32] ++ [hemi sg1 78 83] ++ (32 ::
        (dec d2 ++ ([32] ++ dec m2 ++ ([32] ++ secs_text s2 ms2 ++ ([32] ++ [hemi sg2 69 87] ++ (32 ::
